@@ -29,7 +29,7 @@ class C09(Prop):
 
     def gen(self, rng, idx, tier):
         nodes, servers = gen.node_specs(1, unix=rng.random() < 0.2)
-        idle = rng.choice([0, 5, 60])
+        idle = rng.choice([0, 5, 60, 0.5, 2.5])
         ck = {"default_noreply": rng.random() < 0.4, "timeout": rng.choice([None, 0.5, 3]),
               "connect_timeout": rng.choice([None, 0.5]), "max_pool_size": rng.choice([None, 1, 2]),
               "pool_idle_timeout": idle, "ignore_exc": rng.random() < 0.4}
